@@ -567,7 +567,7 @@ func ireqFamily(run *vk.Run) *family {
 func shapesFamily(run *vk.Run) *family {
 	s := fedlab.SShapes()
 	return nearFamily(run, "S-shapes", s, fedlab.SShapesUniverse(s), func(r fedlab.FieldRef) int {
-		if r.Type == "Owner" || r.Field == "secret" || r.Field == "tags" {
+		if r.Type == "Owner" || r.Field == "secret" || r.Field == "tags" || r.Field == "open" || r.Field == "ratio" || r.Field == "meta" {
 			return 1
 		}
 		return 0
